@@ -4,6 +4,9 @@ import Uquic.Model.Wire.MoreTP
 /-! Transport parameters, round trip (2/3): what one loop iteration does with each kind of parameter
     `Marshal` writes. -/
 
+set_option linter.unusedSimpArgs false
+set_option linter.unusedVariables false
+
 namespace Uquic.Proofs.Wire
 open Uquic.Model.Wire Uquic.Model.Wire.Varint Uquic.Model.Wire.TP
 
